@@ -523,6 +523,119 @@ def splice_body(body: str, spec: FnSpec, n_loops: int, key: str, diverge_spec="e
     return body
 
 
+def _split_top(s: str) -> list:
+    """split an argument list at top-level commas ((), [], {}, ::<> and string/char literals respected)"""
+    out, depth, cur, i, n = [], 0, "", 0, len(s)
+    angle = 0
+    while i < n:
+        c = s[i]
+        if c == '"':
+            j = i + 1
+            while j < n and s[j] != '"':
+                j += 2 if s[j] == "\\" else 1
+            cur += s[i:j + 1]
+            i = j + 1
+            continue
+        if c in "([{":
+            depth += 1
+        elif c in ")]}":
+            depth -= 1
+        elif c == "<" and cur.rstrip().endswith("::"):
+            angle += 1
+        elif c == ">" and angle > 0 and not cur.endswith("-"):
+            angle -= 1
+        if c == "," and depth == 0 and angle == 0:
+            out.append(cur.strip())
+            cur = ""
+        else:
+            cur += c
+        i += 1
+    if cur.strip():
+        out.append(cur.strip())
+    return out
+
+
+def inline_new_helpers(tr: dict, specs: dict, locked_fns: set) -> list:
+    """A function that did not exist when the unit was locked and has no contract in the spec pack is typically a helper
+    introduced by an edit. Modular verification knows nothing about it, so its callers would be undecidable. Where the
+    helper is a plain block (no `return`, no `?`, no loop, no closure, no generics, not recursive) its translated body is
+    substituted for each call - `{ let <param>: <ty> = <arg>; ... <body> }`, arguments evaluated first, in order, exactly
+    as the call does - and the callers are then verified against their own contracts. Returns notes for the evidence."""
+    notes = []
+    if not locked_fns:
+        return notes
+    for _round in range(4):
+        fns = tr["fns"]
+        cand = None
+        for f in fns:
+            k = f["key"]
+            sp = specs.get(k)
+            if k in locked_fns or (sp and (sp.contract.strip() or sp.trusted)):
+                continue
+            b = f["body"]
+            if (re.search(r"\breturn\b", b) or "?" in b or "__vx_" in b or f.get("generics") or k in (f.get("callees") or [])
+                    or f.get("in_trait_decl") or f.get("trait")):
+                continue
+            if not any(k in (g.get("callees") or []) for g in fns if g is not f):
+                continue
+            cand = f
+            break
+        if cand is None:
+            break
+        k, name, ity = cand["key"], cand["name"], cand.get("impl_type")
+        ok_all = True
+        for g in fns:
+            if g is cand or k not in (g.get("callees") or []):
+                continue
+            if ity and "Self" in cand["body"] and g.get("impl_type") != ity:
+                ok_all = False
+                continue
+            body, pos, changed = g["body"], 0, False
+            if ity:
+                pat = re.compile(r"(?<![\w:.])(?:Self|%s(?:::<[^()]*?>)?)::%s\(" % (re.escape(ity), re.escape(name)))
+            else:
+                pat = re.compile(r"(?<![\w:.])%s\(" % re.escape(name))
+            while True:
+                m = pat.search(body, pos)
+                if not m:
+                    break
+                close = find_matching(body, m.end() - 1)
+                args = _split_top(body[m.end():close])
+                params = cand["params"]
+                if len(args) != len(params):
+                    ok_all = False
+                    pos = m.end()
+                    continue
+                lets, bad = [], False
+                for p, a in zip(params, args):
+                    if a == p["name"]:
+                        continue       # same name in caller and helper: the body reads the caller's variable directly
+                    if p["ty"].replace(" ", "") in ("&Env", "&mutEnv"):
+                        bad = True     # would need a re-borrow of the environment under another name
+                        break
+                    lets.append(f"let {p['name']}: {p['ty']} = {a};")
+                if bad:
+                    ok_all = False
+                    pos = m.end()
+                    continue
+                rep = "{ " + " ".join(lets) + " " + cand["body"] + " }"
+                body = body[:m.start()] + rep + body[close + 1:]
+                pos = m.start() + len(rep)
+                changed = True
+            if re.search(pat, body):
+                ok_all = False
+            if changed:
+                g["body"] = body
+                g["callees"] = sorted((set(g["callees"]) - ({k} if not re.search(pat, body) else set())) | set(cand.get("callees") or []))
+                g["n_loops"] = g.get("n_loops", 0)
+                notes.append(f"{k} (new, no contract) inlined into {g['key']}")
+        if ok_all:
+            tr["fns"] = [f for f in fns if f is not cand]
+        else:
+            break
+    return notes
+
+
 # ------------------------------------------------------------------------------------------------
 # assembly
 
@@ -626,10 +739,25 @@ def assemble(unit: dict, scratch: str, passname="A") -> Assembled:
         if k in unit:
             job[k] = unit[k]
     tr = run_translator(job, scratch, unit["name"])
+    lockp = os.path.join(unit["dir"], "obligations.lock")
+    locked_fns = {l.strip()[3:] for l in open(lockp) if l.startswith("fn:")} if os.path.exists(lockp) else set()
+    # a function of the listed files that the selected functions call, that is not in the unit's selection and did not
+    # exist when the unit was locked (a helper introduced by an edit) is pulled into the extraction
+    known_fns = {l.strip()[6:] for l in open(lockp) if l.startswith("known:")} if os.path.exists(lockp) else set()
+    for _ in range(3):
+        if not known_fns or "*" in job.get("fns", []):
+            break
+        new = sorted({k for f in tr["fns"] for k in (f.get("unselected_callees") or [])
+                      if k not in locked_fns and k not in known_fns and k not in job.get("exclude_fns", [])})
+        if not new:
+            break
+        job["fns"] = list(job["fns"]) + new
+        tr = run_translator(job, scratch, unit["name"])
     specs = {}
     for sf in unit.get("contracts", []):
         p = os.path.join(unit["dir"], sf)
         specs.update(parse_vspec(spec_rename(unit, sf, open(p).read()), p))
+    inlined = inline_new_helpers(tr, specs, locked_fns)
     fn_by_key = {f["key"]: f for f in tr["fns"]}
     # "rename_types": {"Map": "SdkMap"} — an SDK type whose name collides with a vstd type is renamed in the
     # generated types and the extracted functions (never in model or spec files)
@@ -706,6 +834,8 @@ def assemble(unit: dict, scratch: str, passname="A") -> Assembled:
     alp = os.path.join(unit["dir"], "anchors.lock.json")
     anchor_lock = (json.load(open(alp)) if os.path.exists(alp) else {}).get(passname, {})
     asm.lost_hints, asm.anchor_bodies = lost_hints, anchor_bodies
+    asm.inlined = inlined
+    asm.all_fn_keys = sorted({k.split('#', 1)[1] for k in tr.get('all_fn_keys', [])})
     asm.borrowed = borrowed
     asm.spec_region = (spec_region_start, spec_region_end)
     asm.unit = unit
